@@ -73,6 +73,10 @@ def fresh(tok):
         v = H.VAlien()
     elif tok == 'none':
         v = None
+    elif tok.startswith('falsy:'):
+        # a falsy object of a type that violates the annotation (truthiness tests standing in for "was it passed" let it through)
+        v = {'int': '', 'str': 0, 'VBase': 0, 'tup': ()}[tok[6:]]
+        return v
     else:
         raise ValueError(tok)
     _fresh.append(v)
@@ -284,7 +288,7 @@ def _call(draw, sig):
     def tok(p):
         if p is None or not p['ann']:
             return draw(st.sampled_from(['int', 'str', 'alien', 'none']))
-        return draw(st.sampled_from([p['ann'], p['ann'], p['ann'], p['ann'], 'alien']))
+        return draw(st.sampled_from([p['ann'], p['ann'], p['ann'], p['ann'], p['ann'], 'alien', 'none', 'falsy:' + p['ann']]))
     po = [p for p in params if p['kind'] == 'po']
     pk = [p for p in params if p['kind'] == 'pk']
     ko = [p for p in params if p['kind'] == 'ko']
